@@ -7,5 +7,5 @@ mkdir -p bin evidence
 (cd extract && go build -o ../bin/extract .)
 (cd /repo && /verif/bin/extract -repo /repo -out /verif/lean/Generated)
 (cd harness && go build -o ../bin/harness .)
-(cd lean && lake build sodmodel Proofs Props Props.Witness)
+(cd lean && lake build sodmodel SodModel Proofs Props Props.Witness)
 echo setup done
